@@ -500,3 +500,40 @@ mod test {
         assert!(Token::decode(&prk, &invalid_token).is_none());
     }
 }
+
+/// Verification hooks: access to the crate-private token codec with a caller-chosen nonce.
+/// Add-only.
+#[cfg(feature = "verif-hooks")]
+#[allow(missing_docs, unreachable_pub)]
+pub mod verif_token {
+    use super::*;
+
+    #[derive(Debug, Clone, Copy, PartialEq, Eq)]
+    pub enum VTokenPayload {
+        Retry { address: SocketAddr, orig_dst_cid: ConnectionId, issued: SystemTime },
+        Validation { ip: IpAddr, issued: SystemTime },
+    }
+
+    /// `Token::encode` for a token with the given nonce
+    pub fn token_encode(key: &dyn HandshakeTokenKey, nonce: u128, p: &VTokenPayload) -> Vec<u8> {
+        let payload = match *p {
+            VTokenPayload::Retry { address, orig_dst_cid, issued } => {
+                TokenPayload::Retry { address, orig_dst_cid, issued }
+            }
+            VTokenPayload::Validation { ip, issued } => TokenPayload::Validation { ip, issued },
+        };
+        Token { payload, nonce }.encode(key)
+    }
+
+    /// `Token::decode`
+    pub fn token_decode(key: &dyn HandshakeTokenKey, raw: &[u8]) -> Option<(u128, VTokenPayload)> {
+        let t = Token::decode(key, raw)?;
+        let p = match t.payload {
+            TokenPayload::Retry { address, orig_dst_cid, issued } => {
+                VTokenPayload::Retry { address, orig_dst_cid, issued }
+            }
+            TokenPayload::Validation { ip, issued } => VTokenPayload::Validation { ip, issued },
+        };
+        Some((t.nonce, p))
+    }
+}
